@@ -1,18 +1,198 @@
-(** C24 — property theorems only. *)
-From Coq Require Import List NArith ZArith Bool Arith.
+(** C24 — property theorems only.  The general lemmas (Proofs.v) hold for every
+    configuration with at least one bin; here the number of bins and the largest
+    proximity are the constants re-extracted from pkg/boson on every run, and
+    every theorem is parametric in the saturation thresholds (package variables
+    that kademlia.New rewrites from Options.BinMaxPeers), the node mode, the
+    static peers, the radius, and the environment switches of the model.
+
+    Vocabulary: [run cfg (init cfg) h = (log, st)] — the Kad after the history [h]
+    of calls, [log] the calls with their return values and the p2p.Disconnect calls
+    Kad made; [reported (conn st)] / [reported (known st)] — what EachPeer /
+    EachKnownPeer enumerate; [live cb log] — the peers connected (inbound admitted, or
+    outbound to a non-boot node) and not since disconnected, read off the log only. *)
+From Coq Require Import List NArith ZArith Bool Arith Lia.
 Import ListNotations.
 Require Import Aurora.Consts Aurora.C24.Model Aurora.C24.Proofs.
 Local Open Scope N_scope.
 
+Definition MaxBins : nat := Z.to_nat Consts.boson_MaxBins.
+Definition MaxPO : N := Z.to_N Consts.boson_MaxPO.
+
+(** a configuration as kademlia.New builds it: 32 bins, proximities up to 31 *)
+Definition kad_cfg_ok (cfg : config) : Prop := c_nb cfg = MaxBins /\ c_maxpo cfg = MaxPO.
+
+(** side conditions on the constants, re-checked by computation on every run:
+    at least one bin; a proximity is always a valid bin index; the thresholds are
+    non-negative (the model holds them in [N]; Go converts nnLowWatermark to uint) *)
+Lemma consts_ok_C24 :
+  ((1 <=? Consts.boson_MaxBins) && (0 <=? Consts.boson_MaxPO) && (Consts.boson_MaxPO <? Consts.boson_MaxBins) &&
+   (0 <=? Consts.kademlia_nnLowWatermark) && (0 <=? Consts.kademlia_quickSaturationPeers) &&
+   (0 <=? Consts.kademlia_saturationPeers) && (0 <=? Consts.kademlia_overSaturationPeers) &&
+   (0 <=? Consts.kademlia_bootNodeOverSaturationPeers))%Z = true.
+Proof. vm_compute. reflexivity. Qed.
+
+Lemma nb_ok cfg : kad_cfg_ok cfg -> (1 <= c_nb cfg)%nat.
+Proof. intros [H _]. rewrite H. apply Nat.leb_le. vm_compute. reflexivity. Qed.
+
+(** the bin a peer is filed under is its proximity (MaxPO < MaxBins) *)
+Theorem C24_bin_is_proximity : forall cfg p, kad_cfg_ok cfg -> pbin cfg p = prox cfg p.
+Proof.
+  intros cfg p [H1 H2]. unfold pbin, prox. rewrite H1, H2.
+  assert (E : (N.to_nat MaxPO <= MaxBins - 1)%nat) by (apply Nat.leb_le; vm_compute; reflexivity).
+  lia.
+Qed.
+Print Assumptions C24_bin_is_proximity.
+
 (** "the peers the topology reports as connected are exactly the full nodes connected and
-    not since disconnected": after any history, on any Kad configuration with at least one
-    bin, EachPeer reports no peer twice and reports [p] iff [p] is in the live set read off
-    the log of calls and return values. *)
+    not since disconnected": after any history EachPeer reports no peer twice, and reports
+    [p] iff [p] is in the live set. *)
 Theorem C24_connected_exact : forall (cfg : config) (h : list event),
-  (1 <= c_nb cfg)%nat ->
+  kad_cfg_ok cfg ->
   let log := fst (run cfg (init cfg) h) in
   let st := snd (run cfg (init cfg) h) in
   NoDup (reported (conn st)) /\
   forall p, In p (reported (conn st)) <-> In p (live (c_cb cfg) log).
-Proof. exact connected_exact. Qed.
+Proof. intros cfg h Hc. exact (connected_exact cfg h (nb_ok cfg Hc)). Qed.
 Print Assumptions C24_connected_exact.
+
+(** "outbound connections to boot nodes are never counted": if every connection event of
+    [p] in the history is an outbound connection with boot-node mode, [p] is not reported. *)
+Theorem C24_outbound_bootnode_never_counted : forall (cfg : config) (h : list event) (p : peer),
+  kad_cfg_ok cfg ->
+  forallb (fun e => negb (may_count p e)) h = true ->
+  ~ In p (reported (conn (snd (run cfg (init cfg) h)))).
+Proof. intros cfg h p Hc. exact (bootnode_never_counted cfg h p (nb_ok cfg Hc)). Qed.
+Print Assumptions C24_outbound_bootnode_never_counted.
+
+(** "every connected peer is also known", for the histories a p2p layer can produce: an
+    outbound boot-node connection is reported only for a peer that is not counted as
+    connected at that moment ([wf_log]; see [C24_wf_hypothesis_is_needed]). *)
+Theorem C24_connected_subset_known : forall (cfg : config) (h : list event),
+  kad_cfg_ok cfg ->
+  wf_log (c_cb cfg) [] (fst (run cfg (init cfg) h)) = true ->
+  forall p, In p (reported (conn (snd (run cfg (init cfg) h)))) ->
+            In p (reported (known (snd (run cfg (init cfg) h)))).
+Proof. intros cfg h Hc. exact (connected_subset_known cfg h (nb_ok cfg Hc)). Qed.
+Print Assumptions C24_connected_subset_known.
+
+(** "an unprotected inbound full node is admitted only if its bin is not oversaturated":
+    after any history, if Connected(p, force=false) of an unprotected [p] returns nil on a
+    node not in boot-node mode, then the bin of [p] is not oversaturated — it is not below
+    the potential depth of the known peers, or fewer than the over-saturation threshold of
+    the live peers of that bin are reachable and non-static. *)
+Theorem C24_admission : forall (cfg : config) (h : list event) (p : peer) (bfail : bool) (victim : nat),
+  kad_cfg_ok cfg -> c_boot cfg = false ->
+  let log := fst (run cfg (init cfg) h) in
+  let st := snd (run cfg (init cfg) h) in
+  is_protected st p = false ->
+  snd (fst (step cfg st (EConnected p false bfail victim))) = ROk ->
+  oversaturated_spec cfg st (live (c_cb cfg) log) (prox cfg p) = false.
+Proof. intros cfg h p bfail victim Hc. exact (admission cfg (nb_ok cfg Hc) h p bfail victim). Qed.
+Print Assumptions C24_admission.
+
+(** the return value of every inbound attempt on a node not in boot-node mode: rejected with
+    ErrOversaturated iff the bin is oversaturated, the peer unprotected and the connection not
+    forced; otherwise nil, or the error of a failed announcement *)
+Theorem C24_inbound_response : forall (cfg : config) (h : list event) (p : peer) (force bfail : bool) (victim : nat),
+  kad_cfg_ok cfg -> c_boot cfg = false ->
+  let log := fst (run cfg (init cfg) h) in
+  let st := snd (run cfg (init cfg) h) in
+  let r := snd (fst (step cfg st (EConnected p force bfail victim))) in
+  (r = RErrOversaturated <->
+     oversaturated_spec cfg st (live (c_cb cfg) log) (prox cfg p) && negb (is_protected st p) && negb force = true) /\
+  (r = ROk \/ r = RErrOversaturated \/ r = RErrAnnounce) /\
+  (r = RErrAnnounce -> c_disc cfg = true /\ bfail = true).
+Proof. intros cfg h p force bfail victim Hc. exact (inbound_response cfg (nb_ok cfg Hc) h p force bfail victim). Qed.
+Print Assumptions C24_inbound_response.
+
+(** an admitted peer is reported as connected and as known right after the call *)
+Theorem C24_admitted_is_reported : forall (cfg : config) (h : list event) (p : peer) (force bfail : bool) (victim : nat),
+  kad_cfg_ok cfg ->
+  let '(st', r, _) := step cfg (snd (run cfg (init cfg) h)) (EConnected p force bfail victim) in
+  r = ROk -> In p (reported (conn st')) /\ In p (reported (known st')).
+Proof. intros cfg h p force bfail victim Hc. exact (admitted_is_reported cfg (nb_ok cfg Hc) h p force bfail victim). Qed.
+Print Assumptions C24_admitted_is_reported.
+
+(** Pick answers true exactly in boot-node mode, for a protected peer, or when the bin is
+    not oversaturated *)
+Theorem C24_pick : forall (cfg : config) (h : list event) (p : peer),
+  kad_cfg_ok cfg ->
+  let log := fst (run cfg (init cfg) h) in
+  let st := snd (run cfg (init cfg) h) in
+  snd (fst (step cfg st (EPick p))) =
+  RBool (c_boot cfg || is_protected st p || negb (oversaturated_spec cfg st (live (c_cb cfg) log) (prox cfg p))).
+Proof. intros cfg h p Hc. exact (pick_response cfg (nb_ok cfg Hc) h p). Qed.
+Print Assumptions C24_pick.
+
+(** boot-node mode: an unprotected inbound peer for an oversaturated bin is let in only
+    after p2p.Disconnect of one reported, non-static peer of that very bin (any index the
+    random draw may give), unless the bin has no such peer *)
+Theorem C24_bootnode_eviction : forall (cfg : config) (h : list event) (p : peer) (force bfail : bool) (victim : nat),
+  kad_cfg_ok cfg -> c_boot cfg = true ->
+  let log := fst (run cfg (init cfg) h) in
+  let st := snd (run cfg (init cfg) h) in
+  is_protected st p = false ->
+  oversaturated_spec cfg st (live (c_cb cfg) log) (prox cfg p) = true ->
+  let '(st', r, calls) := step cfg st (EConnected p force bfail victim) in
+  (r = RErrEmptyBin /\ st' = st /\ calls = []) \/
+  (exists v rest, calls = v :: rest /\ In v (reported (conn st)) /\ pbin cfg v = prox cfg p /\
+                  is_static cfg v = false /\ (r = ROk \/ r = RErrAnnounce)).
+Proof. intros cfg h p force bfail victim Hc. exact (bootnode_eviction cfg (nb_ok cfg Hc) h p force bfail victim). Qed.
+Print Assumptions C24_bootnode_eviction.
+
+(** ---- non-vacuity and necessity examples ---- *)
+Definition thr_cfg (nn qs sat over bootover : N) (boot : bool) : config :=
+  mkConfig MaxBins MaxPO nn qs sat over bootover boot [] MaxPO true true.
+(** the thresholds as the Go source initialises them *)
+Definition default_cfg : config :=
+  thr_cfg (Z.to_N Consts.kademlia_nnLowWatermark) (Z.to_N Consts.kademlia_quickSaturationPeers)
+          (Z.to_N Consts.kademlia_saturationPeers) (Z.to_N Consts.kademlia_overSaturationPeers)
+          (Z.to_N Consts.kademlia_bootNodeOverSaturationPeers) false.
+
+Definition peers_in (b n : nat) : list peer := map (fun i => (b, N.of_nat (100 * b + i))) (seq 0 n).
+(** know everybody, everybody public, connect bins 3,2,1 (4 peers each), then [n0] peers of bin 0 *)
+Definition ramp (n0 : nat) : list event :=
+  let all := peers_in 0 (n0 + 2) ++ peers_in 1 4 ++ peers_in 2 4 ++ peers_in 3 4 in
+  EAddPeers all :: map (fun p => EReach p true) all ++
+  map (fun p => EConnected p false false 0) (peers_in 3 4 ++ peers_in 2 4 ++ peers_in 1 4 ++ peers_in 0 n0).
+
+(** with the thresholds of the Go source: after [overSaturationPeers] admitted peers in bin 0
+    the history is well-formed, the bin is oversaturated, an unprotected unforced peer is
+    rejected, Pick says no, and the hypotheses of [C24_admission] held one peer earlier *)
+Example C24_hypotheses_satisfiable :
+  let cfg := default_cfg in
+  let n := N.to_nat (c_over cfg) in
+  let newp : peer := (0%nat, N.of_nat n) in
+  let r1 := run cfg (init cfg) (ramp n) in
+  let r0 := run cfg (init cfg) (ramp (n - 1)) in
+  kad_cfg_ok cfg /\
+  wf_log (c_cb cfg) [] (fst r1) = true /\
+  length (live (c_cb cfg) (fst r1)) = (n + 12)%nat /\
+  oversaturated_spec cfg (snd r1) (live (c_cb cfg) (fst r1)) 0 = true /\
+  snd (fst (step cfg (snd r1) (EConnected newp false false 0))) = RErrOversaturated /\
+  snd (fst (step cfg (snd r1) (EPick newp))) = RBool false /\
+  snd (fst (step cfg (snd r1) (EConnected newp true false 0))) = ROk /\
+  is_protected (snd r0) newp = false /\
+  snd (fst (step cfg (snd r0) (EConnected newp false false 0))) = ROk.
+Proof. vm_compute. repeat split; reflexivity. Qed.
+
+(** boot-node mode at small thresholds: the oversaturated bin evicts *)
+Example C24_bootnode_example :
+  let cfg := thr_cfg 3 1 2 5 5 true in
+  let r1 := run cfg (init cfg) (ramp 5) in
+  oversaturated_spec cfg (snd r1) (live (c_cb cfg) (fst r1)) 0 = true /\
+  snd (step cfg (snd r1) (EConnected (0%nat, 5) false false 7)) = [(0%nat, 2)] /\
+  snd (fst (step cfg (snd r1) (EConnected (0%nat, 5) false false 7))) = ROk.
+Proof. vm_compute. repeat split; reflexivity. Qed.
+
+(** the hypothesis [wf_log] of [C24_connected_subset_known] cannot be dropped: an outbound
+    boot-node connection reported for a peer that is counted as connected removes it from the
+    known peers only (replayed on the Go code by the corpus case
+    "illformed-outbound-bootnode-on-connected-peer": the implementation agrees) *)
+Example C24_wf_hypothesis_is_needed :
+  let cfg := default_cfg in
+  let p : peer := (1%nat, 7) in
+  let r := run cfg (init cfg) [EConnected p false false 0; EOutbound p true] in
+  wf_log (c_cb cfg) [] (fst r) = false /\
+  reported (conn (snd r)) = [p] /\ reported (known (snd r)) = [].
+Proof. vm_compute. repeat split; reflexivity. Qed.
